@@ -3,10 +3,10 @@ CONSTANTS
   Hosts <- Hosts3
   ReqPaths <- ReqPaths3
   CookiePaths <- CookiePaths2
-  Names <- Names2
+  Names <- Names1
   DomAttrs <- DomAttrs1
-  Lives <- Lives6
-  MaxSteps = 3
+  Lives <- Lives3
+  MaxSteps = 4
   MaxClock = 3
   WithRedirect = TRUE
 INIT Init
